@@ -7,6 +7,8 @@
 -/
 import Proofs.C12_Embed
 import Proofs.C12_Codecs
+import Proofs.C12_ConvExample
+import Proofs.C12_ConvNecessary
 namespace Mammoth
 
 /-- `bytes.decode("utf8")` inverts `str.encode("utf8")`, for every string (all planes, 1–4 byte forms). -/
@@ -370,5 +372,196 @@ example : writeOver [1, 2, 3, 4, 5] [7, 8] true = [7, 8] := by decide
 example : utf8Encode S!"é€𝄞" = [0xC3, 0xA9, 0xE2, 0x82, 0xAC, 0xF0, 0x9D, 0x84, 0x9E] := by decide
 example : utf8DecodeL [0xED, 0xA0, 0x80] = none := by decide   -- a surrogate
 example : utf8DecodeL [0xC0, 0x80] = none := by decide         -- an overlong form
+
+/-! ### "converting the file equals converting the original with `style_map=s`"
+
+  `c12_embedPkg p s` (Proofs/C12_Convert.lean) is `embed_style_map` on the `Package` the converter reads:
+  the relationships part and the content-types part updated by `_add_or_update_element`, the entry
+  `mammoth/style-map` set to the UTF-8 bytes of `s`, every other entry untouched; `none` when one of the two
+  parts is missing or not XML.  The hypotheses are decidable conditions on the ORIGINAL package
+  (Proofs/C12_ConvPackage.lean, Proofs/C12_ConvMain.lean); each is necessary (`C12_embed_convert_necessary`). -/
+
+/-- **Converting the file after `embed_style_map(file, s)` equals converting the original with
+    `style_map=s` and `include_embedded_style_map=False`** — the HTML / Markdown value, the messages, the
+    generated nodes, the document, the I/O trace and the image-converter calls, or the same error —
+    for EVERY package `p` on which the embed succeeds, every string `s`, every option set `o` (both output
+    formats, any `id_prefix`, `ignore_empty_paragraphs`, `include_default_style_map`, image converter), every
+    `transform_document`, every fuel, base directory and outside world, provided
+
+    1. `c12_relEntryOk p`: the `Relationship` element the embed overwrites (the first element in `iter()` order
+       of `word/_rels/document.xml.rels` with `Id="rMammothStyleMap"`, if any) has `Target` and `Type`, and its
+       type is not one of the five `_find_part_paths` looks up (comments, endnotes, footnotes, numbering, styles);
+    2. `c12_overrideEntryOk p`: the `Override PartName="/mammoth/style-map"` the embed overwrites (if any) has a
+       `ContentType`;
+    3. `c12_lookupOk p`: `mammoth/style-map` is not a candidate of any part lookup (or exists already), and the
+       parts located (main document, comments, endnotes, footnotes, numbering, styles) are none of the three
+       entries the embed writes;
+    4. `c12_refsOk p`: the XML read with a body reader (body, notes, comments) does not use the relationship id
+       `rMammothStyleMap` (where its relationships are `word/_rels/document.xml.rels`), and no image has the
+       path `mammoth/style-map`;
+    5. `c12_archiveOk p`: the bytes `archiveBytes` reports are those of the last entry of each name (true when
+       entry names are unique, `C12_archiveOk_of_unique_names`);
+    6. `c12_imagesOk p fuel transform`: the transformed document has no embedded image read from the zip entry
+       `mammoth/style-map`.
+
+    When the original ALREADY carries an embedded map `s0` this says: the new map REPLACES it — the right-hand
+    side is the conversion with the embedded map `s0` left out (`C12_embed_convert_replaces`). -/
+theorem C12_embed_convert (p : Package) (s : Str) (p' : Package) (fuel : Nat) (base : Option Str)
+    (world : Str → Option Bytes) (transform : Document → Document) (o : Options)
+    (h : c12_embedPkg p s = some p')
+    (h1 : c12_relEntryOk p = true) (h2 : c12_overrideEntryOk p = true)
+    (h3 : c12_lookupOk p = true) (h4 : c12_refsOk p = true)
+    (h5 : c12_archiveOk p = true) (h6 : c12_imagesOk p fuel transform = true) :
+    apiConvert p' fuel base world transform { o with styleMap := none, includeEmbedded := true }
+      = apiConvert p fuel base world transform { o with styleMap := some s, includeEmbedded := false } :=
+  c12_embed_convert p s p' fuel base world transform o h h1 h2 h3 h4 h5 h6
+
+/-- the hypotheses of `C12_embed_convert` are satisfiable: the example package (a `Heading1` paragraph, a
+    footnote, a hyperlink, an embedded PNG, styles, content types) satisfies all six, the embed succeeds -/
+example : c12_exHyps c12_exPkg = [true, true, true, true, true, true] ∧
+    (c12_embedPkg c12_exPkg c12_exMap).isSome = true := ⟨c12_ex_hyps, by decide +kernel⟩
+
+/-- … and on it both conversions evaluate (by kernel computation, not via the theorem) to the same
+    non-trivial HTML: `p.Heading1 => h2` gives the `<h2>`, `r => em` the `<em>`s, the default style map the
+    rest; the footnote, the hyperlink and the picture are there. -/
+example :
+    c12_convAfter c12_exPkg S!"p.Heading1 => h2\nr => em" {} = some (.inr (c12_exHtml, [])) ∧
+    c12_convBefore c12_exPkg S!"p.Heading1 => h2\nr => em" {} = .inr (c12_exHtml, []) ∧
+    c12_exHtml = S!"<h2><em>Title</em></h2><p><em>Hello<sup><a href=\"#footnote-1\" id=\"footnote-ref-1\">[1]</a></sup></em><a href=\"http://example.com/\"><em>link</em></a></p><p><em><img alt=\"pic\" src=\"data:image/png;base64,iVBORw==\" /></em></p><ol><li id=\"footnote-1\"><p><em>Note</em> <a href=\"#footnote-ref-1\">↑</a></p></li></ol>" :=
+  ⟨c12_ex_after, c12_ex_before, rfl⟩
+
+/-- unique entry names give hypothesis 5 -/
+theorem C12_archiveOk_of_unique_names (p : Package) (h : strsNodup (p.parts.map (·.1)) = true) :
+    c12_archiveOk p = true := c12_archiveOk_of_unique p h
+
+/-- **Every hypothesis of `C12_embed_convert` is necessary**: for each there is a concrete package (a variant
+    of the example) that violates only it, on which the embed succeeds and the two conversions differ.
+    In order: the id `rMammothStyleMap` is taken by the footnotes relationship (another footnote text);
+    a `Relationship Id="rMammothStyleMap"` lacks `Target` (KeyError before, fine after); an
+    `Override PartName="/mammoth/style-map"` lacks `ContentType` (KeyError before, fine after); a footnotes
+    relationship targets `/mammoth/style-map` (skipped before, "not XML" after); the hyperlink uses the id
+    `rMammothStyleMap` (KeyError before, a link to the style map after); the picture is the entry
+    `mammoth/style-map` (other bytes and content type; this one violates 4 and 6); `transform_document` adds
+    an image read from that entry (KeyError before; violates only 6); two entries named
+    `word/media/image1.png`, the bytes first and an XML one last (violates only 5; an artefact of the
+    model's `archiveBytes`, the library itself reads the last entry both times). -/
+theorem C12_embed_convert_necessary :
+    (c12_exHyps c12_exIdTaken = [false, true, true, true, true, true] ∧
+      c12_convAfter c12_exIdTaken c12_exMap {} ≠ some (c12_convBefore c12_exIdTaken c12_exMap {})) ∧
+    (c12_exHyps c12_exIdBroken = [false, true, true, true, true, true] ∧
+      c12_convBefore c12_exIdBroken c12_exMap {} = .inl (.key S!"Id/Target/Type") ∧
+      c12_convAfter c12_exIdBroken c12_exMap {} = some (.inr (c12_exHtml, []))) ∧
+    (c12_exHyps c12_exOverrideBroken = [true, false, true, true, true, true] ∧
+      c12_convBefore c12_exOverrideBroken c12_exMap {} = .inl (.key S!"PartName/ContentType") ∧
+      c12_convAfter c12_exOverrideBroken c12_exMap {} = some (.inr (c12_exHtml, []))) ∧
+    (c12_exHyps c12_exLookup = [true, true, false, true, true, true] ∧
+      c12_convBefore c12_exLookup c12_exMap {} = .inr (c12_exHtml, []) ∧
+      c12_convAfter c12_exLookup c12_exMap {} = some (.inl (.value S!"not XML: mammoth/style-map"))) ∧
+    (c12_exHyps c12_exRefId = [true, true, true, false, true, true] ∧
+      c12_convBefore c12_exRefId c12_exMap {} = .inl (.key S!"rMammothStyleMap") ∧
+      (c12_convAfter c12_exRefId c12_exMap {}).isSome = true ∧
+      c12_convAfter c12_exRefId c12_exMap {} ≠ some (c12_convBefore c12_exRefId c12_exMap {})) ∧
+    (c12_exHyps c12_exRefImage = [true, true, true, false, true, false] ∧
+      c12_convAfter c12_exRefImage c12_exMap {} ≠ some (c12_convBefore c12_exRefImage c12_exMap {})) ∧
+    (c12_imagesOk c12_exPkg 20 c12_exTransform = false ∧
+      c12_obs (apiConvert c12_exPkg 20 none (fun _ => none) c12_exTransform
+        { styleMap := some c12_exMap, includeEmbedded := false }) = .inl (.key S!"mammoth/style-map") ∧
+      ((c12_embedPkg c12_exPkg c12_exMap).map fun p' =>
+        (c12_obs (apiConvert p' 20 none (fun _ => none) c12_exTransform
+          { styleMap := none, includeEmbedded := true })).isRight) = some true) ∧
+    (c12_exHyps c12_exDuplicate = [true, true, true, true, false, true] ∧
+      c12_convBefore c12_exDuplicate c12_exMap {} = .inr (c12_exHtml, []) ∧
+      c12_convAfter c12_exDuplicate c12_exMap {} = some (.inl (.key S!"word/media/image1.png"))) :=
+  ⟨c12_ex_idTaken, c12_ex_idBroken, c12_ex_overrideBroken, c12_ex_lookup, c12_ex_refId, c12_ex_refImage,
+    c12_ex_transform, c12_ex_duplicate⟩
+
+/-- **The new map replaces an embedded one.**  When the original already carries an embedded style map `s0`,
+    the file after `embed_style_map(file, s)` carries `s` instead, and converting it equals converting the
+    original with `style_map=s` AND `include_embedded_style_map=False` (same hypotheses as
+    `C12_embed_convert`; the property's "converting the original with style_map=s" has to be read this way). -/
+theorem C12_embed_convert_replaces (p : Package) (s s0 : Str) (p' : Package) (fuel : Nat) (base : Option Str)
+    (world : Str → Option Bytes) (transform : Document → Document) (o : Options)
+    (_h0 : readEmbeddedStyleMap p = .ok (some s0))
+    (h : c12_embedPkg p s = some p')
+    (h1 : c12_relEntryOk p = true) (h2 : c12_overrideEntryOk p = true)
+    (h3 : c12_lookupOk p = true) (h4 : c12_refsOk p = true)
+    (h5 : c12_archiveOk p = true) (h6 : c12_imagesOk p fuel transform = true) :
+    readEmbeddedStyleMap p' = .ok (some s) ∧
+    apiConvert p' fuel base world transform { o with styleMap := none, includeEmbedded := true }
+      = apiConvert p fuel base world transform { o with styleMap := some s, includeEmbedded := false } := by
+  refine ⟨?_, c12_embed_convert p s p' fuel base world transform o h h1 h2 h3 h4 h5 h6⟩
+  obtain ⟨r, r', t, t', _, _, _, _, rfl⟩ := c12_embedPkg_inv p s p' h
+  exact c12_readEmbeddedStyleMap_embedded p s r' t'
+
+/-- … and it does NOT in general equal converting the original with `style_map=s` and the old embedded map
+    still included: the example with `p.Heading1 => h3` embedded satisfies all hypotheses; after embedding
+    `r => em` the heading is `<h1>` (default map) — as with the embedded map excluded — whereas
+    `style_map="r => em"` with the old map included gives `<h3>`. -/
+example :
+    c12_exHyps c12_exPkg0 = [true, true, true, true, true, true] ∧
+    (readEmbeddedStyleMap c12_exPkg0).toOption = some (some S!"p.Heading1 => h3") ∧
+    c12_convAfter c12_exPkg0 S!"r => em" {} = some (c12_convBefore c12_exPkg0 S!"r => em" {}) ∧
+    c12_convAfter c12_exPkg0 S!"r => em" {} ≠ some (c12_convBeforeIncl c12_exPkg0 S!"r => em" {}) :=
+  c12_ex_replace
+
+/-- **`extract_raw_text` of the file is unchanged by the embed** (raw text never reads the style map):
+    for every package on which the embed succeeds, every string and every fuel, under hypotheses 1–4 of
+    `C12_embed_convert` (they make `docx.read` of the two files equal; 5 and 6 concern the converter only). -/
+theorem C12_embed_raw_text (p : Package) (s : Str) (p' : Package) (fuel : Nat)
+    (h : c12_embedPkg p s = some p')
+    (h1 : c12_relEntryOk p = true) (h2 : c12_overrideEntryOk p = true)
+    (h3 : c12_lookupOk p = true) (h4 : c12_refsOk p = true) :
+    apiRawText p' fuel = apiRawText p fuel := c12_embed_raw_text p s p' fuel h h1 h2 h3 h4
+
+set_option maxRecDepth 100000 in
+/-- non-vacuity: the raw text of the example, before and after the embed -/
+example :
+    (apiRawText c12_exPkg 20).toOption = some (S!"Title\n\nHellolink\n\n\n\n", []) ∧
+    ((c12_embedPkg c12_exPkg c12_exMap).map fun p' => (apiRawText p' 20).toOption)
+      = some (some (S!"Title\n\nHellolink\n\n\n\n", [])) := by decide +kernel
+
+/-- **`c12_embedPkg` refines `embedArchive`** (the archive-level embed of `MammothModel/Embed.lean`) under the
+    XML codec law: if the archive and the package hold the same relationships / content-types parts — the
+    package the translation `c12_ofE nm` (Clark tags ↦ `prefix:local` names) of what the codec parses —, `nm`
+    keeps the names the embed writes, and the `_find_child` tests agree before and after translation on every
+    element of the two trees (`c12_agree_of_unique`: attribute keys unique, no other tag / key identified with
+    `Relationship` / `Id`, `Override` / `PartName`), then whenever the archive-level embed succeeds the
+    package-level one does, the new package again holds the translations of what the codec parses from the
+    new archive, the style-map entry holds the same bytes, and all other entries are untouched on both sides. -/
+theorem C12_embedPkg_refines (x : XmlCodec) (hx : x.Lawful) (nm : Str → Str) (a a' : Archive) (p : Package)
+    (s : Str) (rb cb : Bytes) (re te : EElem)
+    (h : embedArchive x a s = some a')
+    (hrb : a.get? relsPartPath = some rb) (hre : x.parse rb = some re)
+    (hcb : a.get? contentTypesPartPath = some cb) (hte : x.parse cb = some te)
+    (hpr : lookupLast relsPartPath p.parts = some (.xml (c12_ofE nm re)))
+    (hpt : lookupLast contentTypesPartPath p.parts = some (.xml (c12_ofE nm te)))
+    (hn1 : nm relationshipElemName = c12_relName) (hn2 : nm overrideElemName = c12_overrideName)
+    (hn3 : nm S!"Id" = S!"Id") (hn4 : nm S!"PartName" = S!"PartName")
+    (hn5 : c12_ofAttrs nm styleMapRelAttrs = styleMapRelAttrs)
+    (hn6 : c12_ofAttrs nm styleMapOverrideAttrs = styleMapOverrideAttrs)
+    (hag1 : c12_agreeAll nm relationshipElemName S!"Id" styleMapRelAttrs re = true)
+    (hag2 : c12_agreeAll nm overrideElemName S!"PartName" styleMapOverrideAttrs te = true) :
+    ∃ p', c12_embedPkg p s = some p' ∧
+      lookupLast styleMapPath p'.parts = some (.bytes (utf8Encode s)) ∧
+      a'.get? styleMapPath = some (utf8Encode s) ∧
+      (∃ bs e, a'.get? relsPartPath = some bs ∧ x.parse bs = some e ∧
+        lookupLast relsPartPath p'.parts = some (.xml (c12_ofE nm e))) ∧
+      (∃ bs e, a'.get? contentTypesPartPath = some bs ∧ x.parse bs = some e ∧
+        lookupLast contentTypesPartPath p'.parts = some (.xml (c12_ofE nm e))) ∧
+      (∀ n, n ≠ styleMapPath → n ≠ relsPartPath → n ≠ contentTypesPartPath →
+        a'.get? n = a.get? n ∧ lookupLast n p'.parts = lookupLast n p.parts) :=
+  c12_embedPkg_refines x hx nm a a' p s rb cb re te h hrb hre hcb hte hpr hpt hn1 hn2 hn3 hn4 hn5 hn6 hag1 hag2
+
+/-- the name/tree hypotheses of `C12_embedPkg_refines` are satisfiable (a concrete `nm`, a relationships tree
+    that already holds a style-map relationship, a content-types tree) -/
+example :
+    c12_exNm relationshipElemName = c12_relName ∧ c12_exNm overrideElemName = c12_overrideName ∧
+    c12_exNm S!"Id" = S!"Id" ∧ c12_exNm S!"PartName" = S!"PartName" ∧
+    c12_ofAttrs c12_exNm styleMapRelAttrs = styleMapRelAttrs ∧
+    c12_ofAttrs c12_exNm styleMapOverrideAttrs = styleMapOverrideAttrs ∧
+    c12_agreeAll c12_exNm relationshipElemName S!"Id" styleMapRelAttrs c12_exRe = true ∧
+    c12_agreeAll c12_exNm overrideElemName S!"PartName" styleMapOverrideAttrs c12_exTe = true :=
+  c12_ex_refines_hyps
+
 
 end Mammoth
